@@ -112,7 +112,7 @@ type dtSim struct {
 func (s *dtSim) stamp() int64 { return atomic.AddInt64(&s.ctr, 1) }
 
 func (s *dtSim) past(at int64) time.Time {
-	return s.base.Add(-2 * time.Hour).Add(time.Duration(at) * time.Second)
+	return s.base.Add(-2 * time.Hour).Add(time.Duration(at) * time.Millisecond)
 }
 
 func (s *dtSim) caller(ctx context.Context) *dtCaller {
